@@ -4,8 +4,11 @@ import SecsModel.Proofs.HsmsFsm
 
 Only property theorems, non-vacuity `example`s and counterexample (witness) theorems live here.
 
-`step Defects.code` is the code as shipped; `step Defects.none` is the code with the two proposals applied
-(`proposals/C05-select-rsp-unchecked`, `proposals/C05-separate-ignored`).  Theorems that hold for both variants quantify over `d`.
+`step Defects.none` is the code as it is.  `step Defects.preFix` is the code before the two `fix:` commits 812b685 (Select.rsp /
+Deselect.rsp act only for an open request with status 0) and bfe991b (Separate.req in SELECTED leaves SELECTED); its theorems
+(`C05_prefix_…`) stay because the harness replays their witnesses on every run: a revert of either commit makes the implementation
+show the `preFix` behaviour again, which these theorems prove to deviate from E37 on exactly the rows `deviates` names.
+Theorems that hold for both variants quantify over `d`.
 -/
 namespace SecsModel.Props.C05
 open SecsModel SecsModel.Model.Hsms SecsModel.Proofs.HsmsFsm
@@ -37,7 +40,20 @@ theorem C05_wiring :
     Gen.HsmsProto.wiring = [("CONNECTED", "enter", "_on_state_connect"), ("CONNECTED", "leave", "_on_state_disconnect"),
                             ("CONNECTED_SELECTED", "enter", "_on_state_select")]
     ∧ Gen.HsmsProto.onDisconnecting.map parseStmt = [.sendSeparate]
-    ∧ Gen.HsmsProto.onDisconnected.map parseStmt = [.setConnected, .sm "disconnect", .threadStop, .bufferClear, .fire "disconnected"] := by
+    ∧ Gen.HsmsProto.onDisconnected.map parseStmt = [.setConnected, .sm "disconnect", .threadStop, .bufferClear, .fire "disconnected"]
+    ∧ Gen.HsmsProto.onStateConnect = ["start_linktest_timer", "if_active start_select_thread"]
+    ∧ Gen.HsmsProto.onStateDisconnect = ["cancel_linktest_timer", "clear_linktest_timer"]
+    ∧ Gen.HsmsProto.onLinktestTimer = ["send_linktest_req", "start_linktest_timer"] := by
+  decide
+
+/-- **Which E37 timers the code implements** (generated from the source on every run).  T6 is read only in `hsms/protocol.py` (the bound
+of the three `send_*_req` waits); T5 only by the TCP client connection; T7 and T8 are settings nothing reads, and nothing performs
+the `timeoutT7` transition of the connection state machine: a connected endpoint that is never selected stays NOT SELECTED for ever, and
+an expired control transaction is not treated as a communication failure.  Timers are outside the alphabet C05 quantifies over; if one of
+them gets implemented this obligation breaks and the model has to follow. -/
+theorem C05_timers_in_code :
+    Gen.HsmsProto.timeoutRefs = [("t5", ["common/tcp_client_connection.py"]), ("t6", ["hsms/protocol.py"]), ("t7", []), ("t8", [])]
+    ∧ Gen.HsmsProto.t7Performers = [] := by
   decide
 
 /-! ## step refinement -/
@@ -62,6 +78,7 @@ def absT (s : St) : In → Trigger
   | .apiDeselect => .other
   | .apiLinktest => .other
   | .timeoutT6 _ => .other
+  | .linktestTimer => .other
 
 /-- the rows of the E37 table on which the shipped code deviates:
 F-4 a Select.rsp in NOT SELECTED that is unsolicited or carries a non-zero status (same for Deselect.rsp in SELECTED);
@@ -73,12 +90,13 @@ def deviates (s : St) : In → Bool
   | _ => false
 
 theorem putIfOpen_conn (s : St) (sys : Int) : (putIfOpen s sys).1.conn = s.conn := by
-  unfold putIfOpen; split <;> rfl
+  unfold putIfOpen; split <;> simp
 
-/-- The connection state after a step of the code with the two proposals applied is the E37 successor — every state, every input. -/
+/-- **Step refinement.**  The connection state after a step is the E37 successor — every state, every input (timers and local requests
+included: they leave the session state alone). -/
 theorem C05_step_refines (s : St) (i : In) :
     (step .none s i).1.conn = next s.conn s.disconnecting (absT s i) := by
-  obtain ⟨c, dc, ac, ctr, opn⟩ := s
+  obtain ⟨c, dc, ac, ctr, opn, lts, lto⟩ := s
   cases i with
   | connect =>
     cases c
@@ -99,13 +117,13 @@ theorem C05_step_refines (s : St) (i : In) :
     · -- NOT SELECTED
       cases st <;> simp only [step, absT, next, handleCtrl, Defects.none, if_neg (show ¬(Conn.notSelected = Conn.notConnected) by decide)]
       · cases dc <;> simp [withTransition, smCall_select_ns, afterTransition_conn]
-      · by_cases ho : isOpenKind ⟨.notSelected, dc, ac, ctr, opn⟩ sys .select = true
+      · by_cases ho : isOpenKind ⟨.notSelected, dc, ac, ctr, opn, lts, lto⟩ sys .select = true
         · by_cases hs : status = 0
           · simp [ho, hs, withTransition, smCall_select_ns, afterTransition_conn, putIfOpen_conn]
           · simp [ho, hs, putIfOpen_conn]
         · simp [ho]
       · cases dc <;> simp [withTransition, smCall_deselect_ns]
-      · by_cases ho : isOpenKind ⟨.notSelected, dc, ac, ctr, opn⟩ sys .deselect = true
+      · by_cases ho : isOpenKind ⟨.notSelected, dc, ac, ctr, opn, lts, lto⟩ sys .deselect = true
         · by_cases hs : status = 0
           · simp [ho, hs, withTransition, smCall_deselect_ns]
           · simp [ho, hs, putIfOpen_conn]
@@ -117,13 +135,13 @@ theorem C05_step_refines (s : St) (i : In) :
     · -- SELECTED
       cases st <;> simp only [step, absT, next, handleCtrl, Defects.none, if_neg (show ¬(Conn.selected = Conn.notConnected) by decide)]
       · cases dc <;> simp [withTransition, smCall_select_sel]
-      · by_cases ho : isOpenKind ⟨.selected, dc, ac, ctr, opn⟩ sys .select = true
+      · by_cases ho : isOpenKind ⟨.selected, dc, ac, ctr, opn, lts, lto⟩ sys .select = true
         · by_cases hs : status = 0
           · simp [ho, hs, withTransition, smCall_select_sel]
           · simp [ho, hs, putIfOpen_conn]
         · simp [ho]
       · cases dc <;> simp [withTransition, smCall_deselect_sel, afterTransition_conn]
-      · by_cases ho : isOpenKind ⟨.selected, dc, ac, ctr, opn⟩ sys .deselect = true
+      · by_cases ho : isOpenKind ⟨.selected, dc, ac, ctr, opn, lts, lto⟩ sys .deselect = true
         · by_cases hs : status = 0
           · simp [ho, hs, withTransition, smCall_deselect_sel, afterTransition_conn, putIfOpen_conn]
           · simp [ho, hs, putIfOpen_conn]
@@ -134,103 +152,105 @@ theorem C05_step_refines (s : St) (i : In) :
       · simp [withTransition, smCall_deselect_sel, afterTransition_conn]
   | rxData st f w sys dcd =>
     cases c <;> simp [step, absT, next, handleData]
-    split <;> simp [closeSys]
+    split <;> simp
   | rxDataQueued st f w sys dcd =>
     cases c <;> simp [step, absT, next, handleData, handleDataQueued]
-    split <;> simp [closeSys]
+    split <;> simp
   | apiSelect => cases c <;> simp [step, absT, next, sendReq]
   | apiDeselect => cases c <;> simp [step, absT, next, sendReq]
   | apiLinktest => cases c <;> simp [step, absT, next, sendReq]
-  | timeoutT6 sys => simp [step, absT, next, closeSys]
+  | timeoutT6 sys => simp [step, absT, next]
+  | linktestTimer =>
+    cases c <;> cases lts <;> simp [step, absT, next, onLinktestTimer, sendReq] <;> split <;> simp
 
 /-- non-vacuity: a solicited, accepted Select.rsp in NOT SELECTED (active mode) is a row the theorem covers with a state change -/
-example : (step .none ⟨.notSelected, false, true, 1001, [(1001, .select)]⟩ (.rxCtrl .selectRsp 1001 0)).1.conn = .selected := by decide
+example : (step .none ⟨.notSelected, false, true, 1001, [(1001, .select)], false, 0⟩ (.rxCtrl .selectRsp 1001 0)).1.conn = .selected := by decide
 
-/-! ## the shipped code: what holds, and exactly where it deviates -/
+/-! ## the code before the fix (`Defects.preFix`): what held, and exactly where it deviated -/
 
 /-- the two variants differ only in how Select.rsp, Deselect.rsp and Separate.req are handled -/
-theorem step_code_eq_none (s : St) (i : In)
+theorem step_preFix_eq_none (s : St) (i : In)
     (h : ∀ sys status, i ≠ .rxCtrl .selectRsp sys status ∧ i ≠ .rxCtrl .deselectRsp sys status ∧ i ≠ .rxCtrl .separateReq sys status) :
-    step .code s i = step .none s i := by
+    step .preFix s i = step .none s i := by
   cases i with
   | rxCtrl st sys status =>
     cases st <;> first | rfl | exact absurd rfl (h sys status).1 | exact absurd rfl (h sys status).2.1 | exact absurd rfl (h sys status).2.2
   | _ => rfl
 
-/-- **Step refinement of the shipped code, partial.**  On every state and every input that is not one of the deviating rows
+/-- **Step refinement of the pre-fix variant, partial.**  On every state and every input that is not one of the deviating rows
 (`deviates`: unsolicited / refused Select.rsp in NOT SELECTED, the same for Deselect.rsp in SELECTED, Separate.req in SELECTED)
 the connection state after the step is the E37 successor. -/
-theorem C05_step_refines_partial (s : St) (i : In) (h : deviates s i = false) :
-    (step .code s i).1.conn = next s.conn s.disconnecting (absT s i) := by
+theorem C05_prefix_step_refines_partial (s : St) (i : In) (h : deviates s i = false) :
+    (step .preFix s i).1.conn = next s.conn s.disconnecting (absT s i) := by
   by_cases hi : ∀ sys status, i ≠ .rxCtrl .selectRsp sys status ∧ i ≠ .rxCtrl .deselectRsp sys status ∧ i ≠ .rxCtrl .separateReq sys status
-  · rw [step_code_eq_none s i hi]; exact C05_step_refines s i
-  · obtain ⟨c, dc, ac, ctr, opn⟩ := s
+  · rw [step_preFix_eq_none s i hi]; exact C05_step_refines s i
+  · obtain ⟨c, dc, ac, ctr, opn, lts, lto⟩ := s
     cases i with
     | rxCtrl st sys status =>
       cases st
       case selectRsp =>
         cases c
         · simp [step, absT, next]
-        · have hh : isOpenKind ⟨.notSelected, dc, ac, ctr, opn⟩ sys .select = true ∧ status = 0 := by
+        · have hh : isOpenKind ⟨.notSelected, dc, ac, ctr, opn, lts, lto⟩ sys .select = true ∧ status = 0 := by
             simpa [deviates] using h
-          simp [step, absT, next, handleCtrl, Defects.code, hh.1, hh.2, withTransition, smCall_select_ns, afterTransition_conn, putIfOpen_conn]
-        · simp [step, absT, next, handleCtrl, Defects.code, withTransition, smCall_select_sel]
+          simp [step, absT, next, handleCtrl, Defects.preFix, hh.1, hh.2, withTransition, smCall_select_ns, afterTransition_conn, putIfOpen_conn]
+        · simp [step, absT, next, handleCtrl, Defects.preFix, withTransition, smCall_select_sel]
       case deselectRsp =>
         cases c
         · simp [step, absT, next]
-        · simp [step, absT, next, handleCtrl, Defects.code, withTransition, smCall_deselect_ns]
-        · have hh : isOpenKind ⟨.selected, dc, ac, ctr, opn⟩ sys .deselect = true ∧ status = 0 := by
+        · simp [step, absT, next, handleCtrl, Defects.preFix, withTransition, smCall_deselect_ns]
+        · have hh : isOpenKind ⟨.selected, dc, ac, ctr, opn, lts, lto⟩ sys .deselect = true ∧ status = 0 := by
             simpa [deviates] using h
-          simp [step, absT, next, handleCtrl, Defects.code, hh.1, hh.2, withTransition, smCall_deselect_sel, afterTransition_conn, putIfOpen_conn]
+          simp [step, absT, next, handleCtrl, Defects.preFix, hh.1, hh.2, withTransition, smCall_deselect_sel, afterTransition_conn, putIfOpen_conn]
       case separateReq =>
         cases c
         · simp [step, absT, next]
-        · simp [step, absT, next, handleCtrl, Defects.code, putIfOpen_conn]
+        · simp [step, absT, next, handleCtrl, Defects.preFix, putIfOpen_conn]
         · simp [deviates] at h
       all_goals exact absurd (fun sys status => by simp) hi
     | _ => exact absurd (fun sys status => by simp) hi
 
-/-- **The deviation is exact**: the shipped code leaves the E37 successor state on exactly the rows `deviates` names. -/
-theorem C05_deviation_exact (s : St) (i : In) :
-    (step .code s i).1.conn ≠ next s.conn s.disconnecting (absT s i) ↔ deviates s i = true := by
+/-- **The deviation is exact**: the pre-fix variant leaves the E37 successor state on exactly the rows `deviates` names. -/
+theorem C05_prefix_deviation_exact (s : St) (i : In) :
+    (step .preFix s i).1.conn ≠ next s.conn s.disconnecting (absT s i) ↔ deviates s i = true := by
   constructor
   · intro hne
     cases hd : deviates s i
-    · exact absurd (C05_step_refines_partial s i hd) hne
+    · exact absurd (C05_prefix_step_refines_partial s i hd) hne
     · rfl
   · intro hd
-    obtain ⟨c, dc, ac, ctr, opn⟩ := s
+    obtain ⟨c, dc, ac, ctr, opn, lts, lto⟩ := s
     cases i with
     | rxCtrl st sys status =>
       cases st <;> try (simp [deviates] at hd)
       case selectRsp =>
         obtain ⟨hc, hh⟩ := hd
         subst hc
-        by_cases ho : isOpenKind ⟨.notSelected, dc, ac, ctr, opn⟩ sys .select = true
+        by_cases ho : isOpenKind ⟨.notSelected, dc, ac, ctr, opn, lts, lto⟩ sys .select = true
         · have hs : status ≠ 0 := by
             rcases hh with h1 | h1
             · simp [ho] at h1
             · exact h1
-          simp [step, absT, next, handleCtrl, Defects.code, ho, hs, withTransition, smCall_select_ns, afterTransition_conn, putIfOpen_conn]
-        · simp [step, absT, next, handleCtrl, Defects.code, ho, withTransition, smCall_select_ns, afterTransition_conn, putIfOpen_conn]
+          simp [step, absT, next, handleCtrl, Defects.preFix, ho, hs, withTransition, smCall_select_ns, afterTransition_conn, putIfOpen_conn]
+        · simp [step, absT, next, handleCtrl, Defects.preFix, ho, withTransition, smCall_select_ns, afterTransition_conn, putIfOpen_conn]
       case deselectRsp =>
         obtain ⟨hc, hh⟩ := hd
         subst hc
-        by_cases ho : isOpenKind ⟨.selected, dc, ac, ctr, opn⟩ sys .deselect = true
+        by_cases ho : isOpenKind ⟨.selected, dc, ac, ctr, opn, lts, lto⟩ sys .deselect = true
         · have hs : status ≠ 0 := by
             rcases hh with h1 | h1
             · simp [ho] at h1
             · exact h1
-          simp [step, absT, next, handleCtrl, Defects.code, ho, hs, withTransition, smCall_deselect_sel, afterTransition_conn, putIfOpen_conn]
-        · simp [step, absT, next, handleCtrl, Defects.code, ho, withTransition, smCall_deselect_sel, afterTransition_conn, putIfOpen_conn]
+          simp [step, absT, next, handleCtrl, Defects.preFix, ho, hs, withTransition, smCall_deselect_sel, afterTransition_conn, putIfOpen_conn]
+        · simp [step, absT, next, handleCtrl, Defects.preFix, ho, withTransition, smCall_deselect_sel, afterTransition_conn, putIfOpen_conn]
       case separateReq =>
         subst hd
-        simp [step, absT, next, handleCtrl, Defects.code, putIfOpen_conn]
+        simp [step, absT, next, handleCtrl, Defects.preFix, putIfOpen_conn]
     | _ => simp [deviates] at hd
 
 /-- non-vacuity of the partial theorem: a Select.req in NOT SELECTED is not a deviating row and changes the state -/
-example : deviates ⟨.notSelected, false, false, 7, []⟩ (.rxCtrl .selectReq 5 0) = false
-    ∧ (step .code ⟨.notSelected, false, false, 7, []⟩ (.rxCtrl .selectReq 5 0)).1.conn = .selected := by decide
+example : deviates ⟨.notSelected, false, false, 7, [], false, 0⟩ (.rxCtrl .selectReq 5 0) = false
+    ∧ (step .preFix ⟨.notSelected, false, false, 7, [], false, 0⟩ (.rxCtrl .selectReq 5 0)).1.conn = .selected := by decide
 
 /-! ## every history -/
 
@@ -240,15 +260,15 @@ def specAlong (d : Defects) : Conn → St → List In → Conn
   | c, _, [] => c
   | c, s, i :: is => specAlong d (next c s.disconnecting (absT s i)) (step d s i).1 is
 
-/-- no step of the history is a deviating row (evaluated along the run of the shipped code) -/
+/-- no step of the history is a deviating row (evaluated along the run of the pre-fix variant) -/
 def devFree : St → List In → Bool
   | _, [] => true
-  | s, i :: is => !deviates s i && devFree (step .code s i).1 is
+  | s, i :: is => !deviates s i && devFree (step .preFix s i).1 is
 
 theorem final_cons (d : Defects) (s : St) (i : In) (is : List In) : final d s (i :: is) = final d (step d s i).1 is := by
   simp [final, run]
 
-/-- **Every history (code with the proposals applied).**  After any finite sequence of inputs, from any state, the connection
+/-- **Every history.**  After any finite sequence of inputs, from any state, the connection
 state is the one the E37 table reaches. -/
 theorem C05_history (s : St) (is : List In) : (final .none s is).conn = specAlong .none s.conn s is := by
   induction is generalizing s with
@@ -256,47 +276,47 @@ theorem C05_history (s : St) (is : List In) : (final .none s is).conn = specAlon
   | cons i is ih =>
     rw [final_cons, ih, specAlong, C05_step_refines]
 
-/-- **Every history (shipped code), partial.**  For any finite sequence of inputs none of whose steps is a deviating row, the
+/-- **Every history (pre-fix variant), partial.**  For any finite sequence of inputs none of whose steps is a deviating row, the
 connection state is the one the E37 table reaches. -/
-theorem C05_history_partial (s : St) (is : List In) (h : devFree s is = true) :
-    (final .code s is).conn = specAlong .code s.conn s is := by
+theorem C05_prefix_history_partial (s : St) (is : List In) (h : devFree s is = true) :
+    (final .preFix s is).conn = specAlong .preFix s.conn s is := by
   induction is generalizing s with
   | nil => rfl
   | cons i is ih =>
     simp only [devFree, Bool.and_eq_true, Bool.not_eq_eq_eq_not, Bool.not_true] at h
-    rw [final_cons, ih _ h.2, specAlong, C05_step_refines_partial s i h.1]
+    rw [final_cons, ih _ h.2, specAlong, C05_prefix_step_refines_partial s i h.1]
 
 /-- non-vacuity: connect, Select.req, Deselect.req, Select.req, data, peer close, connect — seven non-deviating steps through all three states -/
 example : devFree (St.init false 100)
     [.connect, .rxCtrl .selectReq 1 0, .rxCtrl .deselectReq 2 0, .rxCtrl .selectReq 3 0, .rxData 1 1 true 4 true, .peerClose, .connect] = true
-    ∧ (final .code (St.init false 100)
+    ∧ (final .preFix (St.init false 100)
     [.connect, .rxCtrl .selectReq 1 0, .rxCtrl .deselectReq 2 0, .rxCtrl .selectReq 3 0, .rxData 1 1 true 4 true, .peerClose, .connect]).conn = .notSelected := by
   decide +kernel
 
-/-! ## witnesses: the shipped code deviates (F-4, F-5) -/
+/-! ## witnesses: the pre-fix variant deviates (F-4, F-5) — what a revert of 812b685 / bfe991b brings back -/
 
 /-- F-4: passive endpoint, connect, unsolicited Select.rsp (system 4242): the code is SELECTED, E37 says NOT SELECTED -/
-theorem C05_witness_select_rsp_unsolicited :
-    (final .code (St.init false 1000) [.connect, .rxCtrl .selectRsp 4242 0]).conn = .selected
-    ∧ specAlong .code .notConnected (St.init false 1000) [.connect, .rxCtrl .selectRsp 4242 0] = .notSelected := by
+theorem C05_prefix_witness_select_rsp_unsolicited :
+    (final .preFix (St.init false 1000) [.connect, .rxCtrl .selectRsp 4242 0]).conn = .selected
+    ∧ specAlong .preFix .notConnected (St.init false 1000) [.connect, .rxCtrl .selectRsp 4242 0] = .notSelected := by
   decide +kernel
 
 /-- F-4: active endpoint, connect (Select.req 1001 goes out), Select.rsp 1001 with status 1 (refused): the code is SELECTED -/
-theorem C05_witness_select_rsp_refused :
-    (final .code (St.init true 1000) [.connect, .rxCtrl .selectRsp 1001 1]).conn = .selected
-    ∧ specAlong .code .notConnected (St.init true 1000) [.connect, .rxCtrl .selectRsp 1001 1] = .notSelected := by
+theorem C05_prefix_witness_select_rsp_refused :
+    (final .preFix (St.init true 1000) [.connect, .rxCtrl .selectRsp 1001 1]).conn = .selected
+    ∧ specAlong .preFix .notConnected (St.init true 1000) [.connect, .rxCtrl .selectRsp 1001 1] = .notSelected := by
   decide +kernel
 
 /-- F-4, same shape: SELECTED, unsolicited Deselect.rsp: the code is NOT SELECTED, E37 says SELECTED -/
-theorem C05_witness_deselect_rsp_unsolicited :
-    (final .code (St.init false 1000) [.connect, .rxCtrl .selectReq 1 0, .rxCtrl .deselectRsp 77 0]).conn = .notSelected
-    ∧ specAlong .code .notConnected (St.init false 1000) [.connect, .rxCtrl .selectReq 1 0, .rxCtrl .deselectRsp 77 0] = .selected := by
+theorem C05_prefix_witness_deselect_rsp_unsolicited :
+    (final .preFix (St.init false 1000) [.connect, .rxCtrl .selectReq 1 0, .rxCtrl .deselectRsp 77 0]).conn = .notSelected
+    ∧ specAlong .preFix .notConnected (St.init false 1000) [.connect, .rxCtrl .selectReq 1 0, .rxCtrl .deselectRsp 77 0] = .selected := by
   decide +kernel
 
 /-- F-5: SELECTED, Separate.req: the code stays SELECTED, E37 leaves SELECTED -/
-theorem C05_witness_separate_ignored :
-    (final .code (St.init false 1000) [.connect, .rxCtrl .selectReq 1 0, .rxCtrl .separateReq 7 0]).conn = .selected
-    ∧ specAlong .code .notConnected (St.init false 1000) [.connect, .rxCtrl .selectReq 1 0, .rxCtrl .separateReq 7 0] = .notSelected := by
+theorem C05_prefix_witness_separate_ignored :
+    (final .preFix (St.init false 1000) [.connect, .rxCtrl .selectReq 1 0, .rxCtrl .separateReq 7 0]).conn = .selected
+    ∧ specAlong .preFix .notConnected (St.init false 1000) [.connect, .rxCtrl .selectReq 1 0, .rxCtrl .separateReq 7 0] = .notSelected := by
   decide +kernel
 
 /-! ## requests are answered exactly once -/
@@ -315,7 +335,7 @@ when already SELECTED and a Deselect.req when NOT SELECTED, where the transition
 theorem C05_one_response (d : Defects) (s : St) (st : SType) (sys status : Int) (hreq : isRequest st = true) (hc : s.conn ≠ .notConnected) :
     txs (step d s (.rxCtrl st sys status)).2 =
       [if s.disconnecting then Out.tx SType.rejectReq.code sys st.code 4 else Out.tx (rspOf st).code sys 0 0] := by
-  obtain ⟨c, dc, ac, ctr, opn⟩ := s
+  obtain ⟨c, dc, ac, ctr, opn, lts, lto⟩ := s
   cases c
   · exact absurd rfl hc
   all_goals
@@ -324,7 +344,7 @@ theorem C05_one_response (d : Defects) (s : St) (st : SType) (sys status : Int) 
         afterTransition, entersConnected_eq, entersSelected_eq]
 
 /-- non-vacuity / the case the task singles out: Select.req while SELECTED gives exactly Select.rsp, then the swallowed exception -/
-example : (step .code ⟨.selected, false, false, 7, []⟩ (.rxCtrl .selectReq 5 0)).2
+example : (step .none ⟨.selected, false, false, 7, [], false, 0⟩ (.rxCtrl .selectReq 5 0)).2
     = [.tx SType.selectRsp.code 5 0 0, .swallowed .wrongSource] := by decide
 
 /-! ## the selected-state gate -/
@@ -346,7 +366,7 @@ theorem C05_gate (d : Defects) (s : St) (q : Bool) (st f : Int) (w : Bool) (sys 
     ∧ (s.conn = .notSelected → (step d s (dataIn q st f w sys dcd)).2 = [.tx SType.rejectReq.code sys Gen.HsmsSType.DATA_MESSAGE 4])
     ∧ (s.conn = .notConnected → txs (step d s (dataIn q st f w sys dcd)).2 = []
         ∧ (q = true → (step d s (dataIn q st f w sys dcd)).2 = [.txBlocked SType.rejectReq.code sys Gen.HsmsSType.DATA_MESSAGE 4])) := by
-  obtain ⟨c, dc, ac, ctr, opn⟩ := s
+  obtain ⟨c, dc, ac, ctr, opn, lts, lto⟩ := s
   cases c
   · cases q <;> simp [dataIn, step, handleDataQueued, delivers, txs]
   · cases q <;> simp [dataIn, step, handleData, handleDataQueued, delivers, reject]
@@ -354,8 +374,8 @@ theorem C05_gate (d : Defects) (s : St) (q : Bool) (st f : Int) (w : Bool) (sys 
 
 /-- non-vacuity: an uncatalogued, undecodable S99F1 with the W-bit while NOT SELECTED is rejected with its system bytes, reason 4; the
 same block dispatched from the queue after the connection was closed is not delivered either -/
-example : (step .code ⟨.notSelected, false, false, 7, []⟩ (.rxData 99 1 true 12 false)).2 = [.tx 7 12 0 4]
-    ∧ (step .code ⟨.notConnected, false, false, 7, []⟩ (.rxDataQueued 1 1 true 102 true)).2 = [.txBlocked 7 102 0 4] := by decide
+example : (step .none ⟨.notSelected, false, false, 7, [], false, 0⟩ (.rxData 99 1 true 12 false)).2 = [.tx 7 12 0 4]
+    ∧ (step .none ⟨.notConnected, false, false, 7, [], false, 0⟩ (.rxDataQueued 1 1 true 102 true)).2 = [.txBlocked 7 102 0 4] := by decide
 
 /-- **SELECTED delivers exactly once.**  A data message handled while SELECTED (received, or dispatched from the queue) produces exactly
 one output: it is put on the queue of the requester waiting on its system bytes if it is a reply (even function code) and there is such a
@@ -365,16 +385,16 @@ stream/function, W-bit and body. -/
 theorem C05_selected_delivers (d : Defects) (s : St) (q : Bool) (st f : Int) (w : Bool) (sys : Int) (dcd : Bool) (hc : s.conn = .selected) :
     (step d s (dataIn q st f w sys dcd)).2 = [if f % 2 = 0 ∧ isOpen s sys = true then Out.deliverWaiter sys else Out.deliverApp sys]
     ∧ (step d s (dataIn q st f w sys dcd)).1.conn = .selected := by
-  obtain ⟨c, dc, ac, ctr, opn⟩ := s
+  obtain ⟨c, dc, ac, ctr, opn, lts, lto⟩ := s
   simp only at hc; subst hc
   cases q <;> simp only [dataIn, step, handleData, handleDataQueued] <;>
-    by_cases ho : f % 2 = 0 ∧ isOpen ⟨.selected, dc, ac, ctr, opn⟩ sys = true <;> simp [ho, closeSys]
+    by_cases ho : f % 2 = 0 ∧ isOpen ⟨.selected, dc, ac, ctr, opn, lts, lto⟩ sys = true <;> simp [ho]
 
 /-- non-vacuity: SELECTED with a requester waiting on 1001: a reply (S1F2) with these system bytes goes to the requester, a primary (S1F1)
 with the same system bytes and any message with other system bytes go to the application -/
-example : (step .code ⟨.selected, false, true, 1001, [(1001, .select)]⟩ (.rxData 1 2 false 1001 true)).2 = [.deliverWaiter 1001]
-    ∧ (step .code ⟨.selected, false, true, 1001, [(1001, .select)]⟩ (.rxData 1 1 true 1001 true)).2 = [.deliverApp 1001]
-    ∧ (step .code ⟨.selected, false, true, 1001, [(1001, .select)]⟩ (.rxData 1 2 false 5 true)).2 = [.deliverApp 5] := by decide
+example : (step .none ⟨.selected, false, true, 1001, [(1001, .select)], false, 0⟩ (.rxData 1 2 false 1001 true)).2 = [.deliverWaiter 1001]
+    ∧ (step .none ⟨.selected, false, true, 1001, [(1001, .select)], false, 0⟩ (.rxData 1 1 true 1001 true)).2 = [.deliverApp 1001]
+    ∧ (step .none ⟨.selected, false, true, 1001, [(1001, .select)], false, 0⟩ (.rxData 1 2 false 5 true)).2 = [.deliverApp 5] := by decide
 
 /-- **The three statements at every point of every history** (from any start state, for both variants). -/
 theorem C05_history_responses (d : Defects) (s0 : St) (is : List In) :
@@ -394,9 +414,46 @@ theorem C05_history_responses (d : Defects) (s0 : St) (is : List In) :
     exact (C05_selected_delivers d s q st f w sys dcd h).1
 
 /-- non-vacuity: all three states are reachable by histories -/
-example : (final .code (St.init true 5) [.connect]).conn = .notSelected
-    ∧ (final .code (St.init true 5) [.connect, .rxCtrl .selectReq 9 0]).conn = .selected
-    ∧ (final .code (St.init true 5) [.connect, .rxCtrl .selectReq 9 0, .disableBegin, .disableEnd]).conn = .notConnected := by
+example : (final .none (St.init true 5) [.connect]).conn = .notSelected
+    ∧ (final .none (St.init true 5) [.connect, .rxCtrl .selectReq 9 0]).conn = .selected
+    ∧ (final .none (St.init true 5) [.connect, .rxCtrl .selectReq 9 0, .disableBegin, .disableEnd]).conn = .notConnected := by
+  decide +kernel
+
+/-! ## responses nobody asked for, and the timers -/
+
+/-- **An unsolicited Select.rsp / Deselect.rsp is dropped silently.**  A Select.rsp (Deselect.rsp) whose system bytes are not those of a
+Select.req (Deselect.req) this endpoint has open changes nothing and writes nothing — in particular no Reject.req (E37 asks for reason
+"transaction not open"; C05's statement is about the session state and about answers to *requests*, so this is recorded, not demanded). -/
+theorem C05_unsolicited_rsp_silent (s : St) (sys status : Int) :
+    (isOpenKind s sys .select = false → step .none s (.rxCtrl .selectRsp sys status) = (s, []))
+    ∧ (isOpenKind s sys .deselect = false → step .none s (.rxCtrl .deselectRsp sys status) = (s, [])) := by
+  constructor <;> intro h <;> simp [step, handleCtrl, Defects.none, h]
+
+/-- non-vacuity: the open Select.req of an active endpoint is 1001; a Select.rsp for 4242 is dropped, the one for 1001 selects -/
+example : step .none ⟨.notSelected, false, true, 1001, [(1001, .select)], true, 0⟩ (.rxCtrl .selectRsp 4242 0)
+      = (⟨.notSelected, false, true, 1001, [(1001, .select)], true, 0⟩, [])
+    ∧ (step .none ⟨.notSelected, false, true, 1001, [(1001, .select)], true, 0⟩ (.rxCtrl .selectRsp 1001 0)).1.conn = .selected := by
+  decide
+
+/-- **Timers leave the session alone.**  T6 expiry only ends the requester's wait (no frame, no delivery, state unchanged — E37's
+"communication failure" is not acted upon); a firing linktest timer writes at most one frame, a Linktest.req with a fresh system id
+(none without a connection: it is put into the send queue), delivers nothing and leaves the session state unchanged. -/
+theorem C05_timers_keep_state (d : Defects) (s : St) (sys : Int) :
+    ((step d s (.timeoutT6 sys)).1.conn = s.conn ∧ (step d s (.timeoutT6 sys)).2 = [])
+    ∧ ((step d s .linktestTimer).1.conn = s.conn ∧ delivers (step d s .linktestTimer).2 = []
+        ∧ (txs (step d s .linktestTimer).2 = []
+            ∨ txs (step d s .linktestTimer).2 = [.tx SType.linktestReq.code (nextCtr s.ctr) 0 0])) := by
+  obtain ⟨c, dc, ac, ctr, opn, lts, lto⟩ := s
+  refine ⟨⟨by simp [step], by simp [step]⟩, ?_⟩
+  cases c <;> cases lts <;> simp [step, onLinktestTimer, sendReq, delivers, txs, Req.stype] <;> split <;> simp [txs]
+
+/-- **The linktest timer outlives the connection (recorded behaviour, not a C05 matter).**  Connect; the linktest timer fires
+(Linktest.req 1001 goes out); the peer closes before answering; T6 expires: `_on_linktest_timer` re-arms the timer although the session is
+NOT CONNECTED.  After the next connect there are two pending timers — the one `_on_state_connect` starts does not cancel the stray one. -/
+theorem C05_linktest_timer_survives_close :
+    let s1 := final .none (St.init false 1000) [.connect, .linktestTimer, .peerClose, .timeoutT6 1001]
+    let s2 := final .none (St.init false 1000) [.connect, .linktestTimer, .peerClose, .timeoutT6 1001, .connect]
+    s1.conn = .notConnected ∧ s1.ltStored = true ∧ s2.ltStored = true ∧ s2.ltOrphans = 1 := by
   decide +kernel
 
 /-! ## the accept race -/
